@@ -839,6 +839,11 @@ class Interner:
     def __init__(self):
         self.idx = {}
         self.items = []
+        self.env = {}       # (kind, repr of key) -> entry; the oracle answers are pure functions of the value
+
+    def add_env(self, entries):
+        for e in entries:
+            self.env.setdefault((e[0], repr(e[1])), e)
 
     def ref(self, b):
         if isinstance(b, str):
@@ -858,6 +863,7 @@ class Interner:
         return o
 
     def requires(self):
+        genv = core.sx([self.walk(e) for e in self.env.values()])      # interns its texts: before the table is printed
         ents = []
         for b in self.items:
             if all(32 <= c < 127 and c != 34 for c in b):
@@ -866,7 +872,9 @@ class Interner:
                 ents.append('hx "%s"' % b.hex())
         return ('From Config Require Import ConfigRun. Require Import Coq.Strings.String Coq.Lists.List. '
                 'Open Scope string_scope.\nDefinition strtab : list string := Eval vm_compute in ('
-                + '\n :: '.join(ents + ['nil']) + ').')
+                + '\n :: '.join(ents + ['nil']) + ').\n'
+                'Require Import Coq.ZArith.ZArith. Import ListNotations. From VLib Require Import Sx.\n'
+                'Definition genv := Eval vm_compute in genv_of strtab (' + genv + ')%Z.')
 
 
 _real_getaddrinfo = socket.getaddrinfo
@@ -1079,7 +1087,7 @@ def resolve_env(d):
 
 
 def n_cases(ctx):
-    return 2000 if ctx.quick() else 100000
+    return 2000 if ctx.quick() else 40000
 
 
 def describe(listen, d, desc):
@@ -1108,7 +1116,8 @@ def correspond(ctx):
             res, draws = run_real(ctx.rng, listen, d)
             envl = resolve_env(d)
             addrs = [c_addr(ip_address(a)) for a in listen]
-            load_cases.append((tab.walk([addrs, envl, draws, enc_in(d)]), tab.walk(res_code(res))))
+            tab.add_env(envl)
+            load_cases.append((tab.walk([addrs, draws, enc_in(d)]), tab.walk(res_code(res))))
             meta.append((listen, d, desc, res))
             ok = res[0] == 'ok'
             ctx.case(describe(listen, d, desc), nontrivial=True, sample=(i < 4))
@@ -1118,18 +1127,18 @@ def correspond(ctx):
             if isinstance(d, dict) and i % 4 == 0:
                 for name, cd in list(d.items())[:1]:
                     r2, dr2 = run_real(ctx.rng, listen, d, only_ike=(name, cd))
-                    ike_cases.append((tab.walk([addrs, envl, dr2, enc_in(name), enc_in(cd)]), tab.walk(res_code(r2))))
+                    ike_cases.append((tab.walk([addrs, dr2, enc_in(name), enc_in(cd)]), tab.walk(res_code(r2))))
                     ctx.case({'ike_conf': describe(listen, cd, desc)}, nontrivial=True)
                     ctx.count('ike_conf:' + ('ok' if r2[0] == 'ok' else r2[1]))
         done += BATCH
         req = tab.requires()
-        bad = core.run_cases(ctx, CLUSTER, req, 'run_load strtab', load_cases, shard=150, name=f'load{batch_no}')
+        bad = core.run_cases(ctx, CLUSTER, req, 'run_load strtab genv', load_cases, shard=150, name=f'load{batch_no}')
         for gi, out in bad[:6]:
             listen, d, desc, res = meta[gi]
             fails.append(Failure('correspondence', 'config:load',
                                  f'Configuration({listen}, {describe(listen, d, desc)["dict"][:600]}) = {str(res)[:300]} '
                                  f'but the model says {out[-300:]}', {'kind': 'config', 'listen': listen, 'dict': repr(d)}))
-        bad = core.run_cases(ctx, CLUSTER, req, 'run_ike_conf strtab', ike_cases, shard=150, name=f'ike{batch_no}')
+        bad = core.run_cases(ctx, CLUSTER, req, 'run_ike_conf strtab genv', ike_cases, shard=150, name=f'ike{batch_no}')
         for gi, out in bad[:6]:
             fails.append(Failure('correspondence', 'config:load_ike_conf',
                                  f'_load_ike_conf -> {str(ike_cases[gi][1])[:300]} but the model says {out[-300:]}',
